@@ -131,12 +131,24 @@ def make_coders():
             json.dumps(ct.to_dict())
             return ct
 
+    class HoldingManager(CompiledTemplateManager):
+        """a caller who keeps the handle a manager gave him for a template and goes on executing THAT handle, while the manager
+        (cache of one entry) is asked for other templates in between and evicts and recompiles as it likes: a compiled template
+        that has been handed out is the caller's, it executes the same whatever the cache did since"""
+        def get_or_compile(self, template, table_group):
+            ct = CompiledTemplateManager.get_or_compile(self, template, table_group)
+            held = self.__dict__.setdefault('held_handles', {})
+            key = (tuple(template.original_descriptor_ids), repr(getattr(table_group, 'key', None)))
+            return held.setdefault(key, ct)
+
     d = dict(plain=Decoder(), compiled=Decoder(compiled_template_cache_max=3), reloaded=Decoder(compiled_template_cache_max=0),
-             saved=Decoder(compiled_template_cache_max=3))
+             saved=Decoder(compiled_template_cache_max=3), held=Decoder(compiled_template_cache_max=1))
+    d['held'].compiled_template_manager = HoldingManager(1)
     d['reloaded'].compiled_template_manager = ReloadManager(0)
     d['saved'].compiled_template_manager = SavingManager(3)
     e = dict(plain=Encoder(), compiled=Encoder(compiled_template_cache_max=3), reloaded=Encoder(compiled_template_cache_max=0),
-             saved=Encoder(compiled_template_cache_max=3))
+             saved=Encoder(compiled_template_cache_max=3), held=Encoder(compiled_template_cache_max=1))
+    e['held'].compiled_template_manager = HoldingManager(1)
     e['reloaded'].compiled_template_manager = ReloadManager(0)
     e['saved'].compiled_template_manager = SavingManager(3)
     return d, e
@@ -192,7 +204,7 @@ def compare_message(ctx, decs, encs, b, ids, spec, do_encode=True):
         ctx.count('marker_programs')
     if base[0] == 'exc':
         ctx.count('plain_decode_raises')
-    for name in ('compiled', 'reloaded', 'saved', 'saved'):
+    for name in ('compiled', 'reloaded', 'saved', 'saved', 'held'):
         o = outcome(lambda: snap(decs[name].process(b)))
         ctx.count('decodes_%s_compared' % name)
         if o[0] == 'exc' and base[0] == 'exc' and o[1] == base[1]:
@@ -203,6 +215,18 @@ def compare_message(ctx, decs, encs, b, ids, spec, do_encode=True):
                         '%s decode differs from the interpreted one (%s): %r vs %r'
                         % (name, w, o[1:3] if o[0] == 'exc' else o[0], base[1:3] if base[0] == 'exc' else base[0]),
                         spec, expected=base if base[0] == 'exc' else None, observed=o if o[0] == 'exc' else None)
+    # the handle kept for an EARLIER template is executed again now that the manager has compiled (and evicted) others since
+    ring = ctx.__dict__.setdefault('_c08_ring', [])
+    if base[0] == 'ok':
+        ring.append((b, base, fs))
+    if len(ring) > 3:
+        ob, obase, ofs = ring.pop(0)
+        o = outcome(lambda: snap(decs['held'].process(ob)))
+        ctx.count('kept_handles_executed_after_other_templates')
+        if o != obase:
+            ctx.violate('decode/held-differs/after-other-templates/%s/%s' % (why_differs(o, obase), ofs),
+                        'a compiled template whose handle was kept, executed again after the manager had compiled other templates, decodes '
+                        'differently from the interpreted decoder', dict(spec, earlier_hex=ob.hex()))
     if not do_encode or base[0] != 'ok':
         return
     try:
@@ -211,7 +235,7 @@ def compare_message(ctx, decs, encs, b, ids, spec, do_encode=True):
     except Exception:
         return
     eb = outcome(lambda: ('ok', encs['plain'].process(fjs).serialized_bytes))
-    for name in ('compiled', 'reloaded', 'saved', 'saved'):
+    for name in ('compiled', 'reloaded', 'saved', 'saved', 'held'):
         o = outcome(lambda: ('ok', encs[name].process(fjs).serialized_bytes))
         ctx.count('encodes_compared')
         if o[0] == 'exc' and eb[0] == 'exc' and o[1] == eb[1]:
